@@ -232,6 +232,12 @@ func (am *AccountingManager) Stop() error {
 		drained = am.drainAllSessions()
 	}
 
+	// Stop the workers before the queue is written out: a record the retry
+	// worker delivers while (or after) the queue is persisted would still be
+	// in pending.json and be sent a second time after the restart.
+	am.cancel()
+	am.wg.Wait()
+
 	// Persist pending records before shutdown
 	if err := am.persistPendingRecords(); err != nil {
 		am.logger.Warn("Failed to persist pending records", zap.Error(err))
@@ -243,10 +249,6 @@ func (am *AccountingManager) Stop() error {
 			am.removePersistedSession(id)
 		}
 	}
-
-	// Cancel context and wait for workers
-	am.cancel()
-	am.wg.Wait()
 
 	am.logger.Info("Accounting manager stopped")
 	return nil
